@@ -5,7 +5,7 @@ and passes without) and stores it under /verif/seeded/<ID><suffix>/."""
 import json, os, shutil, subprocess, sys
 ID, needs, caught = sys.argv[1], sys.argv[2], sys.argv[3]
 suffix = sys.argv[4] if len(sys.argv) > 4 else ""
-wt = "/tmp/seed_%s" % ID
+wt = os.environ.get("SEED_PREFIX", "/tmp/seed_") + ID
 sd = os.path.join(wt, "_seed")
 dst = "/verif/seeded/%s%s" % (ID, suffix)
 def sh(cmd, cwd=None, timeout=3000):
